@@ -194,6 +194,9 @@ func printUnit(u *UnitResult, dump bool) {
 		}
 	}
 	fmt.Printf("== %s [%s] obligations=%d proved=%d cover=%s wall=%.1fs\n", u.Unit, u.Kind, len(u.Obls), np, u.Cover, u.WallS)
+	if len(u.DeadReturns) > 0 {
+		fmt.Printf("   !! unreachable returns under the contract: %s\n", strings.Join(u.DeadReturns, " "))
+	}
 	if u.Error != "" {
 		fmt.Printf("   ERROR: %s\n", u.Error)
 	}
